@@ -38,14 +38,35 @@ The loop was: seed -> run -> strengthen the check *generally* where it missed (n
   built-in exception types with empty messages, large tool payloads, constructor flags that tests never flip
   (`enable_reliability_tracking`, `tolerance`, `window_size`, `watchdog_exempt`, `default_expression`), re-registration of held
   resources, kill + re-queue under the same id.
-* With the machinery as committed, **141 of the 144 seeded changes are reported (exit 1)**; the three that are not are
-  *acknowledged* misses, each because the statement does not decide the point and a clause that caught it would also
-  alarm on conforming implementations (C16-r3-2 spliced wires bypassing `connect()`; C17-r3-3 which confirmed threats must be
-  graded CRITICAL; C19-r3-1 step-wise clamp versus clamp of the plain product) — reasons in the table and in `meta.json`.
+* Round 4 (48 changes, told about rounds 1–3 and pointed at state left behind by earlier calls, feature interactions,
+  side-effect order around escaping exceptions, equal-but-not-identical values, second boundaries): 24 caught at once.
+  The misses led to: one helper object serving two subjects (one Nucleus with two engines, shared default handler
+  registry, a long-lived Watchdog across a re-started id), objects built through constructor parameters and the other
+  public classes/modes of the same source files (`WiringDiagram(modules=…)`, `CascadeMode.PARALLEL` through `run()`,
+  `AgentCascade`), explicit-zero and off-grid quotas/thresholds, `max_amplification < 1`, externally seeded values equal
+  to wired ones, back-references in custom regexes, near-miss completion markers, falsy-but-present context entries,
+  the library's own exception hierarchy raised by collaborators, bystander locks for *every* resource a request names,
+  `regeneration_rate` as a constructor parameter in C04, "any N→A is the start" in C09's clock model, and a null stdout
+  that behaves like a strict UTF-8 console.
+* __SUMMARY__
 
 A change seeded under one property's text is sometimes a defect of a neighbouring property's kind (a sequential
 accounting bug seeded under C05, a race seeded under C04): the table shows which check reports it.
 
 '''
+import glob, json
+metas = [json.load(open(f)) for f in sorted(glob.glob(os.path.join(ROOT, "seeded", "*", "meta.json")))]
+caught = [m for m in metas if m.get("caught_by")]
+ack = [m for m in metas if not m.get("caught_by") and m.get("acknowledged_miss")]
+open_ = [m for m in metas if not m.get("caught_by") and not m.get("acknowledged_miss")]
+summary = (f"With the machinery as committed, **{len(caught)} of the {len(metas)} seeded changes are reported (exit 1)**; "
+           f"{len(ack)} are *acknowledged* misses - each because the statement does not decide the point (a clause that caught it "
+           f"would also alarm on conforming implementations) or because it needs something outside what a deterministic simulator "
+           f"controls (a console that cannot print the library's own emoji, re-use of a freed memory address, threads on classes "
+           f"that are not thread-safe in the unchanged code): "
+           + "; ".join("-".join(m["name"].split("-")[:3] if m["name"].split("-")[1].startswith("r") else m["name"].split("-")[:2]) for m in ack)
+           + " - reasons in the table and in `meta.json`."
+           + (f" {len(open_)} are not caught and not yet analysed: " + ", ".join(m["name"][:12] for m in open_) + "." if open_ else ""))
+intro = intro.replace("__SUMMARY__", summary)
 open(p, "w").write(s + intro + table + "\n")
 print("DESIGN.md §9.6 rewritten")
